@@ -41,6 +41,11 @@ AWRAP_SRC = [
 def _cb_def(cid, cb, indent="    ", self_arg=True):
     name = cb["name"]
     deco = [f"{indent}@_sigdeco"] if cb.get("sigdeco") else []
+    if cb["async"] and cb.get("afuture"):
+        # a plain function that STARTS the work and returns a Future-like awaitable (not a coroutine)
+        return [f"{indent}def {name}(self, *args, **kwargs):",
+                f"{indent}    import asyncio as _a",
+                f"{indent}    return _a.ensure_future(REC.arun({cid!r}, self, args, kwargs))"]
     if cb["async"] and cb.get("awrap"):
         return [f"{indent}@_awrap", f"{indent}def {name}(self, *args, **kwargs):",
                 f"{indent}    return REC.arun({cid!r}, self, args, kwargs)"]
